@@ -146,6 +146,31 @@ def run(C, R):
                     R.fail('C02.R3', [cf, 'clear-reachable-from', r],
                            'is_locked is cleared in %s, which is reachable from %s and not only from the guard '
                            'destructor' % (cf, r), '%s:%s' % (rf['file'], rf['line']) if rf else None)
+        # ---- R6: the converse of R3 - dropping the guard does release the mutex on every path
+        gd = [fn for fn in F.raw['fns'] if fn.get('impl_adt') == GUARD and (fn.get('impl_trait') or '').endswith('ops::Drop')]
+        if len(gd) != 1:
+            raise CheckerError('anchor=Drop impl of the mutex guard')
+        paths = E.run(gd[0]['path'])
+        R.add_paths(gd[0]['path'], len(paths))
+        for path in paths:
+            if path.exit != 'return':
+                R.fail('C02.R6', [gd[0]['path'], 'guard-drop-panics'], 'dropping the guard can panic', None)
+                continue
+            ws = lock_writes(path)
+            locked0 = None
+            for k, v in path.facts.items():
+                if isinstance(k, tuple) and k[0] == 'init' and loc_endswith(k[1], 'is_locked') and v[0] == 'eq':
+                    locked0 = v[1]
+            if locked0 == 0 and not ws:
+                R.skip_infeasible()     # a guard exists => the bit is set (the invariant this property proves)
+                continue
+            if ws and ws[-1]['val'] == ('const', 0):
+                R.ok('C02.R6', '%s|releases|%s' % (gd[0]['path'], path_cond(E, path)))
+            else:
+                R.fail('C02.R6', [gd[0]['path'], 'guard-drop-keeps-lock'],
+                       'a path of the guard destructor returns without clearing is_locked: the mutex stays locked '
+                       'with no guard alive [%s]' % path_cond(E, path), '%s:%s' % (gd[0]['file'], gd[0]['line']),
+                       {'trace': trace_summary(path)})
         # ---- R4: guard uniqueness & cell access
         g = F.adt(GUARD)
         if g['self_auto']['Clone'] or g['self_auto']['Copy'] or F.impls_of(trait_suffix='clone::Clone', self_adt=GUARD) \
